@@ -77,6 +77,8 @@ def smt_percent(tier):
         return {"verdict": "unknown", "queries": 1, "solver_s": round(dt, 3), "detail": detail, "message": "solver answered " + r}
     w, _, dt2 = _solve_z3(pre + [ret == 57])
     if w != "sat":
+        if w != "unsat":
+            return {"verdict": "unknown", "message": "vacuity witness inconclusive (solver answered %s)" % w}
         return {"verdict": "error", "message": "vacuity witness failed"}
     zero, _, dt3 = _solve_z3([z3.Not(_percent_nomax_zero())])
     detail.append({"obligation": "no maximum => 0 percent", "result": zero})
@@ -144,6 +146,8 @@ def smt_bar(tier):
         return {"verdict": "unknown", "queries": 1, "solver_s": round(dt, 2), "detail": detail, "message": "solver answered " + r}
     w, _, dt2 = smtlib.check(pre + [length == bw, step > 0, step < mx, bw == 28], logic="QF_BVFP", timeout_s=120)
     if w != "sat":
+        if w != "unsat":
+            return {"verdict": "unknown", "message": "vacuity witness inconclusive (solver answered %s)" % w}
         return {"verdict": "error", "message": "vacuity witness failed: " + w}
     return {"verdict": "confirmed", "queries": 2, "solver_s": round(dt + dt2, 2), "detail": detail}
 
@@ -198,6 +202,8 @@ def smt_set_progress(tier):
         w, _, dt = smtlib.check(pre + [drawn["g"], step1 != mx1, mx0 > 0], logic="QF_BVFP", timeout_s=120)
         results.append({"witness": "a throttled draw is reachable", "result": w})
         if w != "sat":
+            if w != "unsat":
+                return {"verdict": "unknown", "message": "vacuity witness inconclusive (solver answered %s)" % w}
             return {"verdict": "error", "message": "vacuity witness failed", "detail": results}
     return {"verdict": "confirmed", "queries": len(results), "solver_s": round(sum(r.get("solver_s", 0) for r in results), 2), "detail": results}
 
